@@ -398,7 +398,65 @@ func folRunOne(si int, sc *folScenario) ([]folMismatch, map[string]int, error) {
 			fmt.Fprintf(os.Stderr, "%6.2fs "+f+"\n", append([]interface{}{time.Since(t00).Seconds()}, a...)...)
 		}
 	}
+	// sampler: from a fault of the present session (AOFSHRINK on the leader, a cut connection) until the follower has
+	// been judged again the leader is quiescent; every SERVER reply of the follower is one consistent observation (taken
+	// under its lock): one that says caught_up must show the leader's counts
+	var sampStop, sampDone chan struct{}
+	sampBad, sampN := "", 0
+	startSampler := func() {
+		lc, err1 := ldr[cur].srv.Dial()
+		sc2, err2 := follower.Dial()
+		if err1 != nil || err2 != nil {
+			return
+		}
+		lm := serverInfo(lc)
+		lc.Close()
+		stop, done := make(chan struct{}), make(chan struct{})
+		sampStop, sampDone = stop, done
+		go func() {
+			defer close(done)
+			defer sc2.Close()
+			for {
+				select {
+				case <-stop:
+					return
+				default:
+				}
+				m := serverInfo(sc2)
+				if len(m) > 0 {
+					sampN++
+					if (m["caught_up"] == "true" || m["caught_up"] == "1") && sampBad == "" &&
+						(m["num_objects"] != lm["num_objects"] || m["num_strings"] != lm["num_strings"] || m["num_points"] != lm["num_points"]) {
+						sampBad = fmt.Sprintf("objects %s strings %s points %s aof_size %s; the quiescent leader holds objects %s strings %s points %s",
+							m["num_objects"], m["num_strings"], m["num_points"], m["aof_size"], lm["num_objects"], lm["num_strings"], lm["num_points"])
+					}
+				}
+				time.Sleep(300 * time.Microsecond)
+			}
+		}()
+	}
+	stopSampler := func(step int) {
+		if sampStop == nil {
+			return
+		}
+		close(sampStop)
+		<-sampDone
+		sampStop = nil
+		stats["caughtup_samples"] += sampN
+		sampN = 0
+		if sampBad != "" {
+			out = append(out, folMismatch{si, step, "stale", "after a fault, with the leader quiescent, the follower answered SERVER with caught_up = true while it held " + sampBad})
+			sampBad = ""
+		}
+	}
+	defer func() {
+		if sampStop != nil {
+			close(sampStop)
+			<-sampDone
+		}
+	}()
 	sync := func(step int) {
+		defer stopSampler(step)
 		stats["syncs"]++
 		dbg("sync step %d pending=%v need=%d", step, pending, needEvents)
 		if pending {
@@ -449,6 +507,7 @@ func folRunOne(si int, sc *folScenario) ([]folMismatch, map[string]int, error) {
 				serverInfo(ldr[cur].conn)["aof_size"], serverInfo(fc)["aof_size"], strings.Join(d, "; "))})
 		}
 	}
+	ballasted := false
 	steps := append(append([]string{}, sc.Steps...), "sync")
 	for i, st := range steps {
 		if len(out) > 0 {
@@ -471,6 +530,7 @@ func folRunOne(si int, sc *folScenario) ([]folMismatch, map[string]int, error) {
 			needEvents = cuEvents + 1
 			hmu.Unlock()
 			pending = true
+			startSampler()
 			proxy.cut()
 			stats["drops"]++
 		case "frestart":
@@ -500,11 +560,41 @@ func folRunOne(si int, sc *folScenario) ([]folMismatch, map[string]int, error) {
 			}
 			stats["frestarts"]++
 		case "lshrink":
+			if si%2 == 0 && !ballasted {
+				// a dataset whose copy takes a while: the window in which a follower that re-copies can be observed
+				ballasted = true
+				if pending {
+					sync(i)
+				}
+				// (the leader is not quiescent while the ballast is written: the caught-up instant is not judged)
+				hmu.Lock()
+				checkEarly = false
+				hmu.Unlock()
+				const nb = 20000
+				for j := 0; j < nb; j += 500 {
+					for q := j; q < j+500; q++ {
+						if err := ldr[cur].conn.Send("SET", "ballast", fmt.Sprintf("b%05d", q), "POINT", "1", fmt.Sprint(q%90)); err != nil {
+							return nil, nil, err
+						}
+					}
+					for q := j; q < j+500; q++ {
+						if _, err := ldr[cur].conn.Recv(); err != nil {
+							return nil, nil, err
+						}
+					}
+				}
+				sync(i)
+				hmu.Lock()
+				checkEarly = true
+				early = nil
+				hmu.Unlock()
+			}
 			sync(i)
 			hmu.Lock()
 			needEvents = cuEvents + 1
 			hmu.Unlock()
 			pending = true
+			startSampler()
 			if r, err := ldr[cur].conn.Do("AOFSHRINK"); err != nil || r.Kind != '+' {
 				return nil, nil, fmt.Errorf("AOFSHRINK: %v %v", r, err)
 			}
